@@ -46,6 +46,10 @@ def generate(rng, tier):
     for i in range(12 if tier == "quick" else 300):
         cases.append({"kind": "client", "servers": rng.choice([2, 6, 24, 48]), "messages": rng.choice([20, 100, 300]),
                       "reporter_us": rng.choice([0, 10, 50, 500]), "hold_us": 0})
+    # many rounds of "all connections deliver their first partial result into the empty global set at the same instant"
+    for i in range(4 if tier == "quick" else 40):
+        cases.append({"kind": "client", "servers": rng.choice([8, 24, 48]), "messages": rng.choice([1, 3]), "reporter_us": 0, "hold_us": 0,
+                      "rounds": 1500})
     return cases
 
 
@@ -81,8 +85,9 @@ def judge(cases, obs, tier):
             continue
         if c["kind"] == "client":
             if o["total"] != o["expected"]:
-                oracle[i] = "client: %d of %d partial results are in the final result (%d servers x %d messages, reporter every %d us)" % (
-                    o["total"], o["expected"], c["servers"], c["messages"], c["reporter_us"])
+                oracle[i] = "client: %d of %d partial results are in the final result (%d servers x %d messages, reporter every %d us%s)" % (
+                    o["total"], o["expected"], c["servers"], c["messages"], c["reporter_us"],
+                    "; %d of %d rounds lost something" % (o["bad_rounds"], o["rounds"]) if o.get("rounds") else "")
             continue
         total = 0
         for f in o.get("frames") or []:
@@ -134,7 +139,7 @@ def classify(case, ob, detail):
         after = _idx(ob.get("files_after_aggregator"))
         # ... and those files belong to read commands that were RECEIVED after the aggregator had finished (a file
         # of an earlier command that merely waited for its limiter slot is a different matter)
-        known_cmds = ob.get("commands_before_aggregator_finished", 0) - 1      # minus the map command
+        known_cmds = ob.get("commands_before_aggregator_finished", 0)      # read commands in the aggregator's counter before its deciding look
         if after and min(after) >= known_cmds and total >= sum(sz for k, sz in enumerate(case["_sizes"]) if k not in after):
             return "read_command_after_aggregator_finished"
     return None
